@@ -6,7 +6,7 @@ R (i): an in-package shim replays every row into the real perm table / maskExtra
 V (ii): harness/cmd/sec c26 encrypts real documents with every requested /P and algorithm, opens them with user-only, owner,
    user+wrong-owner and empty credentials for every command mode (real read path) and runs the real file operations;
    TLC validates every record against Sec!ReadOutcome (spec/SecPermTrace.tla)."""
-import json, os, re, shutil
+import json, os, shutil
 import vlib, secfamily
 
 META = {
@@ -73,31 +73,30 @@ def run(ctx):
             if r["via"] == "api" and hit:
                 ev.sample({k: (v if k != "outs" else hit[:3] + [it for it in r["outs"] if it["out"] == "ok"][:2]) for k, v in r.items()})
                 break
-        while rows:
-            vlib.write_ndjson(rec, rows)
-            res = vlib.run_tlc("SecPermTrace", "SecPermTrace.cfg", files=[rec], workers=1, timeout=3000, heap="3g" if ctx.quick else "12g",
-                               payloads={"BAD": badf})
-            if res.violated == "RecordOK":
-                k = int(re.search(r"l = (\d+)", res.error_state or "").group(1))
-                r = rows[k - 1]
-                bad = [b for b in vlib.read_ndjson(badf) if b["l"] == k]
-                idx = sorted(set(i for b in bad for i in b["bad"])) or [1]
-                for i in idx[:4]:
+        vlib.write_ndjson(rec, rows)
+        res = vlib.run_tlc("SecPermTrace", "SecPermTrace.cfg", files=[rec], workers=1, timeout=3000, heap="3g" if ctx.quick else "12g",
+                           payloads={"BAD": badf})
+        rejected = 0
+        if res.violated == "AllAccepted":
+            seen = set()
+            for b in vlib.read_ndjson(badf):
+                r = rows[b["l"] - 1]
+                for i in b["bad"]:
                     it = r["outs"][i - 1]
-                    ctx.report("e2e|%s|%s|%s|P=%d|u=%s,o=%s" % (r["via"], it["mode"], r["alg"], r["p"], r["u"], r["o"]),
-                               "%s %s%s on a %s document (upw=%r opw=%r P=%d) opened with (u=%r, o=%r) gave %s, which the specification rejects" % (
-                                   r["via"], it["mode"], "/" + it["op"] if it["op"] else "", r["alg"], r["upw"], r["opw"], r["p"], r["u"], r["o"], it["out"]),
-                               {k2: (v if k2 != "outs" else it) for k2, v in r.items()})
-                validated += sum(len(x["outs"]) for x in rows[:k - 1]) + len(r["outs"]) - len(idx)
-                rows = rows[k:]
-                if len(ctx.violations) >= 12:
-                    break
-                continue
-            if not res.ok:
-                raise vlib.HarnessError("SecPermTrace did not accept the records: %s\n%s" % (res.violated, res.out[-2000:]))
-            validated += sum(len(x["outs"]) for x in rows)
-            ev.tlc(res, "SecPermTrace.cfg")
-            break
+                    rejected += 1
+                    key = "e2e|%s|%s|%s|u=%s,o=%s" % (r["via"], it["mode"], r["alg"], r["u"], r["o"])
+                    if key in seen:
+                        continue
+                    seen.add(key)
+                    ctx.report(key, "%s %s%s on a %s document (upw=%r opw=%r P=%d) opened with (u=%r, o=%r) gave %s, which the specification rejects" % (
+                        r["via"], it["mode"], "/" + it["op"] if it["op"] else "", r["alg"], r["upw"], r["opw"], r["p"], r["u"], r["o"], it["out"]),
+                        {k2: (v if k2 != "outs" else it) for k2, v in r.items()})
+            if not rejected:
+                raise vlib.HarnessError("SecPermTrace rejected the records without naming one")
+        elif not res.ok:
+            raise vlib.HarnessError("SecPermTrace did not accept the records: %s\n%s" % (res.violated, res.out[-2000:]))
+        ev.tlc(res, "SecPermTrace.cfg")
+        validated = total - rejected
         denied = secfamily.total(summs, "denied")
         ev.cov(evaluations=ss["rows"] + total, distinct_nontrivial=ss["distinct"],
                traces_validated_against_impl=ncases + validated,
